@@ -83,21 +83,19 @@ def sig(scen, kind, detail, rec=None):
     return {"family": "capture", "lt": scen.get("lt"), "kind": kind}
 
 
-def observations(workdir):
-    """what libpcap reported for files written through DataLinkType<Loopback> (read from the recorded traces)"""
+def observations(paths):
+    """what libpcap reported for files written through DataLinkType<Loopback> (read from this run's recorded traces)"""
     seen = {}
-    for name in sorted(os.listdir(workdir)):
-        if not (name.startswith("capture_file-") and name.endswith(".trace.ndjson")) or "confirm" in name or "replay" in name:
-            continue
-        with open(os.path.join(workdir, name)) as f:
+    for path in paths:
+        with open(path) as f:
             want = False
             for line in f:
                 if line.startswith('{"e":"Reset"'):
                     want = '"lt":"LOOP_LIB"' in line
                 elif want and line.startswith('{"e":"file"'):
-                    k = json.loads(line)["flt"]
+                    k = "file link type " + json.loads(line)["flt"]
                     seen[k] = seen.get(k, 0) + 1
-                elif want and line.startswith('{"e":"next"') or want and line.startswith('{"e":"loop"'):
+                elif want and (line.startswith('{"e":"next"') or line.startswith('{"e":"loop"')):
                     e = json.loads(line).get("exc", "none")
                     if e != "none":
                         seen["exception " + e] = seen.get("exception " + e, 0) + 1
@@ -128,11 +126,13 @@ def run(tier):
     scen = bfs + [usable(x, i) for i, x in enumerate(sim + wl + lf)] + probe
     p = vlib.Pipeline(PROP, "capture_file", "capture/CaptureTrace")
     chunk = 25000
+    traces = []
     for i in range(0, len(scen), chunk):
         p.push(scen[i:i + chunk], "s%d" % (i // chunk))
+        traces.append(os.path.join(p.dir, "capture_file-s%d.trace.ndjson" % (i // chunk)))
     p.confirm(v, sig)
     rc = v.finish()
-    obs = observations(p.dir)
+    obs = observations(traces)
     for d in os.listdir(p.dir):                     # files of a scenario that died are left behind by the driver
         if d.startswith("capture-tmp-"):
             shutil.rmtree(os.path.join(p.dir, d), ignore_errors=True)
@@ -150,7 +150,7 @@ def run(tier):
                 "sequences of <=%d frames x all programs of <=2 calls, TLC -simulate (<=8 frames, <=3 calls), seeded walks (<=12 frames), "
                 "%d files of ~1000 frames; non-trivial = a frame that does not parse precedes one that does and (a stopped loop is "
                 "followed by another call, or a filter is installed)" % (3 if quick else 5, len(lf)),
-        "model_checked": {"CaptureLoop": {"max_frames": 4 if quick else 5, "distinct": mc[0].distinct, "generated": mc[0].generated},
+        "model_checked": {"CaptureLoop": {"max_frames": 4 if quick else 6, "distinct": mc[0].distinct, "generated": mc[0].generated},
                           "CaptureLoop termination (liveness)": {"distinct": mc[1].distinct},
                           "model_mutants_refuted": refuted},
         "observations": {"files written with DataLinkType<Loopback> (link type libpcap reports / exceptions; outside the property's "
@@ -166,7 +166,7 @@ def run(tier):
         "PPI cannot be serialised by libtins (pdu_not_serializable), so PPI files are written with pcap_dump and only read back",
         "timestamps: seconds in 0..2^31-1, microseconds in {0,1,999999}; frames up to ~1.5 kB; files up to 1000 frames",
         "model bounds: <=%d frames, every class sequence, filter on/off, unbounded call programs; conformance on replayed executions only"
-        % (4 if quick else 5),
+        % (4 if quick else 6),
     ])
     return rc
 
